@@ -70,6 +70,9 @@ func (x *Explorer) doCall(fr *frame, in ssa.Instruction, ev Event, site *ssa.Cal
 		}
 	}
 	// not inlined: opaque result, havoc what the callee may modify
+	if x.Opts.Observe != nil {
+		x.Opts.Observe(x, &ev)
+	}
 	res := x.T.mk(Term{Kind: KCall, N: x.next(), Ref: calleeRef(&ev), Args: ev.Args, Type: resType})
 	ev.Result = res
 	x.havocCall(in, &ev)
